@@ -91,8 +91,8 @@ CHECKS = {
    note="The independent decoder's header parsing is itself re-done by TLC on the raw bytes; traces longer than 400 frames are checked by the harness only.",
    design="6/C02"),
  "C18": dict(
-   technique="TLA+ model of the net.Conn adapter (spec/WSNetConn.tla: stream equality, EOF mapping, wrong type, idle vs active deadlines) checked by TLC; every behaviour up to a depth replayed on the real adapter with the timer branch read from hooks",
-   text="TLC checks StreamEq/EOFMap/IdleKeepsOpen on all behaviours of <=5 operations (0.56M states) and writes every enabled behaviour of <=3 (quick, 2891) / <=4 (thorough, 39797) operations with the observation each call must report; the harness replays them on a real adapter in both roles, both message types and 2-3 unit sizes.",
+   technique="TLA+ model of the net.Conn adapter (spec/WSNetConn.tla: stream equality, EOF mapping, wrong type, idle vs active deadlines) checked by TLC; every behaviour up to a depth replayed on the real adapter with the timer branch read from hooks; TLA+ model of the deadline machinery at the grain of the code (spec/WSDeadline.tla) checked by TLC incl. three deviation regressions, and TLC trace validation (TraceDeadline.tla EXTENDS WSDeadline) of concurrent executions of a real adapter replayed through the model's own actions",
+   text="TLC checks StreamEq/EOFMap/IdleKeepsOpen on all behaviours of <=5 operations (0.56M states) and writes every enabled behaviour of <=3 (quick, 2891) / <=4 (thorough, 39797) operations with the observation each call must report; the harness replays them on a real adapter in both roles, both message types and 2-3 unit sizes. 300 (quick) / 4000 (thorough) concurrent executions (reader, writer, a goroutine setting deadlines, timer callbacks) are recorded at the adapter's linearization points and each (connection, direction) must be a behaviour of WSDeadline, its invariants evaluated in every state.",
    note="Which branch a deadline timer took comes from the NcTimerIdle/NcTimerActive hooks, not from timing.",
    design="6/C18"),
  "C19": dict(
